@@ -1,6 +1,7 @@
 import asyncio
 from datetime import datetime, timezone
 import functools
+import inspect
 import os
 import socket
 import time
@@ -124,10 +125,11 @@ class InstrumentedAsyncServer:
             elif isinstance(self.auth, list):
                 authenticated = client_auth in self.auth
             else:
-                if asyncio.iscoroutinefunction(self.auth):
-                    authenticated = await self.auth(client_auth)
-                else:
-                    authenticated = self.auth(client_auth)
+                authenticated = self.auth(client_auth)
+                if inspect.isawaitable(authenticated):
+                    # (also for asynchronous callables that are not plain
+                    # coroutine functions)
+                    authenticated = await authenticated
             if not authenticated:
                 raise ConnectionRefusedError('authentication failed')
 
